@@ -284,6 +284,12 @@ def _fallback(ex, callee, args, st, why):
     raise Unsupported(why)
 
 
+def st_str_to_string(ex, callee, args, st):
+    if getattr(ex, "strings_identity", False):
+        return _ret(ex.deref(args[0], st), st)
+    return _fallback(ex, callee, args, st, "to_string")
+
+
 def st_vec_deref(ex, callee, args, st):
     v = ex.deref(args[0], st)
     if isinstance(v, (Sym, Adt)) and getattr(ex, "model_sequences", False):
@@ -383,6 +389,65 @@ def st_collect_vec(ex, callee, args, st):
                 res.append((o.kind, o.value, o.info, o.state))
             else:
                 work.append((k + 1, acc + [o.value], o.state))
+    return res
+
+
+class FilterIter(symex.Val):
+    def __init__(self, inner, env, ctext):
+        self.inner, self.env, self.ctext = inner, env, ctext
+
+    def __repr__(self):
+        return f"filter<{self.inner!r}>"
+
+
+def st_iter_filter(ex, callee, args, st):
+    it = ex.deref(args[0], st)
+    cm = re.search(r"(\{closure@[^}]+\})", callee)
+    if not isinstance(it, SeqIter) or it.rev or not cm:
+        return _fallback(ex, callee, args, st, f"filter over {it!r}")
+    return _ret(FilterIter(it, args[1], cm.group(1)), st)
+
+
+def st_filter_cloned(ex, callee, args, st):
+    it = ex.deref(args[0], st)
+    if not isinstance(it, FilterIter):
+        return _fallback(ex, callee, args, st, f"cloned of {it!r}")
+    return _ret(it, st)
+
+
+def st_collect_filter(ex, callee, args, st):
+    """`iter.filter(p)[.cloned()].collect::<Vec<_>>()`: p on each element in order; an element is kept on the paths where p holds"""
+    fi = ex.deref(args[0], st)
+    if not isinstance(fi, FilterIter):
+        return _fallback(ex, callee, args, st, f"collect of {fi!r}")
+    f = _closure_fn(ex, fi.ctext)
+    res = []
+    work = [(fi.inner.lo, [], st)]
+    while work:
+        k, acc, s1 = work.pop()
+        if k >= fi.inner.hi:
+            res.append(("return", Adt("Vec", "lit", acc), None, s1))
+            continue
+        el = seq_elem(ex, fi.inner.seq, k)
+        for o in ex.run(f, [fi.env, el], {}, 1, s1):
+            if o.kind != "return":
+                res.append((o.kind, o.value, o.info, o.state))
+                continue
+            v = ex.deref(o.value, o.state)
+            if not (isinstance(v, Scalar) and v.sort == "bool"):
+                raise Unsupported(f"filter: closure returned {v!r}")
+            t = symex.simplify_bool(v.term)
+            if t != "false":
+                s_t = o.state.fork()
+                if t != "true" and t not in s_t.pc:
+                    s_t.pc.append(t)
+                work.append((k + 1, acc + [el], s_t))
+            if t != "true":
+                s_f = o.state.fork()
+                nt = symex.simplify_bool(symex.neg(t))
+                if nt != "true" and nt not in s_f.pc:
+                    s_f.pc.append(nt)
+                work.append((k + 1, acc, s_f))
     return res
 
 
@@ -573,6 +638,69 @@ def st_option_enum_eq(ex, callee, args, st):
     return _ret(S("bool", term), st)
 
 
+# ---- a symbolic String-keyed map handed in from outside: a sequence of (key, value) entries with pairwise distinct keys ----------
+def symmap_entries(ex, m, st):
+    """-> [(n, state)]; entry j has key `<m>.k<j>` (a symbolic string) and value `<m>.v<j>`"""
+    return seq_lengths(ex, m, st)
+
+
+def symmap_key(ex, m, j):
+    key = ("mapkey", str(j))
+    if key not in m._children:
+        m._children[key] = ex.sym_value("std::string::String", f"{m.name}.k{j}")
+    return m._children[key]
+
+
+def symmap_val(ex, m, j):
+    key = ("mapval", str(j))
+    if key not in m._children:
+        mt = re.match(r"^(?:&\s*)?(?:std::collections::)?HashMap<(.*)>$", m.ty_text.strip())
+        vt = symex.split_top(mt.group(1))[1].strip() if mt else None
+        if vt is None:
+            raise Unsupported(f"value type of {m.ty_text}")
+        m._children[key] = ex.sym_value(vt, f"{m.name}.v{j}", m.tdef.modpath if m.tdef else None)
+    return m._children[key]
+
+
+def st_symmap_get(ex, callee, args, st):
+    m = ex.deref(args[0], st)
+    if not (isinstance(m, Sym) and getattr(ex, "model_symmaps", False)):
+        return _fallback(ex, callee, args, st, f"get on {m!r}")
+    kid = str_id(ex, args[1], st)
+    res = []
+    for n, st2 in symmap_entries(ex, m, st):
+        s1 = st2
+        for j in range(n):
+            eq = f"(= {str_id(ex, symmap_key(ex, m, j), s1)} {kid})"
+            s_hit = s1.fork()
+            s_hit.pc.append(eq)
+            res.append(("return", Adt("Option", "Some", [symmap_val(ex, m, j)]), None, s_hit))
+            s1 = s1.fork()
+            s1.pc.append(symex.neg(eq))
+        res.append(("return", Adt("Option", "None", []), None, s1))
+    return res
+
+
+def st_symmap_into_iter(ex, callee, args, st):
+    m = ex.deref(args[0], st)
+    if not (isinstance(m, Sym) and getattr(ex, "model_symmaps", False)):
+        return _fallback(ex, callee, args, st, f"iteration over {m!r}")
+    out = []
+    for n, st2 in symmap_entries(ex, m, st):
+        ents = Adt("Vec", "lit", [symex.Tup([symmap_key(ex, m, j), symmap_val(ex, m, j)]) for j in range(n)])
+        out.append(("return", SeqIter(ents, 0, n), None, st2))
+    return out
+
+
+def st_map_contains_key(ex, callee, args, st):
+    cur = ex.deref(args[0], st)
+    if not (isinstance(cur, Adt) and cur.ty == "Map"):
+        return _fallback(ex, callee, args, st, f"contains_key on {cur!r}")
+    kid = str_id(ex, args[1], st)
+    eqs = [f"(= {str_id(ex, ent.items[0], st)} {kid})" for ent in cur.fields]
+    return _ret(S("bool", symex.disj(eqs) if eqs else "false"), st)
+
+
 def st_opt_is_some_and(ex, callee, args, st):
     """Option::is_some_and(f) / is_none_or(f)"""
     cm = re.search(r"(\{closure@[^}]+\})", callee)
@@ -682,6 +810,10 @@ def st_into_iter(ex, callee, args, st):
     v = ex.deref(args[0], st)
     if isinstance(v, SeqIter):
         return _ret(v, st)
+    if isinstance(v, Sym) and "HashMap<" in v.ty_text and getattr(ex, "model_symmaps", False):
+        return st_symmap_into_iter(ex, callee, args, st)
+    if isinstance(v, Sym) and "HashMap<" in v.ty_text:
+        return _fallback(ex, callee, args, st, f"into_iter of {v!r}")
     if isinstance(v, Sym) and re.search(r"^<&", callee) and getattr(ex, "model_sequences", False):
         return st_slice_iter(ex, callee, args, st)
     return _fallback(ex, callee, args, st, f"into_iter of {v!r}")
@@ -816,6 +948,9 @@ STATE_INTRINSICS = {
     r"^<Map<.*> as (std::iter::)?Iterator>::collect::<(std::result::)?Result<_, .*>>$": st_collect_result_vec,
     r"^<Map<.*> as (std::iter::)?Iterator>::collect::<(std::vec::)?Vec<.*>>$": st_collect_vec,
     r"^<(std::slice::)?Iter<.*> as (std::iter::)?Iterator>::enumerate$": st_iter_enumerate,
+    r"^<(std::slice::)?Iter<.*> as (std::iter::)?Iterator>::filter::<.*>$": st_iter_filter,
+    r"^<Filter<.*> as (std::iter::)?Iterator>::cloned::<.*>$": st_filter_cloned,
+    r"^<(Cloned<)?Filter<.*>>? as (std::iter::)?Iterator>::collect::<(std::vec::)?Vec<.*>>$": st_collect_filter,
     r"^<(std::iter::)?Enumerate<.*> as (std::iter::)?Iterator>::map::<.*>$": st_iter_map,
     r"^(std::vec::)?Vec::<.*>::new$": st_vec_new,
     r"^(std::vec::)?Vec::<.*>::push$": st_vec_push,
@@ -825,6 +960,10 @@ STATE_INTRINSICS = {
     r"HashSet::<(std::string::)?String>::insert$": st_set_insert,
     r"HashSet::<(std::string::)?String>::contains::<.*>$": st_set_contains,
     r"HashSet::<(std::string::)?String>::is_empty$": st_set_is_empty,
+    r"HashMap::<(std::string::)?String, .*>::get::<.*>$": st_symmap_get,
+    r"^<&(std::collections::)?HashMap<(std::string::)?String, .*> as (std::iter::)?IntoIterator>::into_iter$": st_symmap_into_iter,
+    r"^<(std::collections::)?hash_map::Iter<.*> as (std::iter::)?Iterator>::next$": st_iter_next,
+    r"HashMap::<&str, .*>::contains_key::<.*>$": st_map_contains_key,
     r"HashMap::<&str, .*>::new$": st_map_new,
     r"HashMap::<&str, .*>::insert$": st_map_insert,
     r"HashMap::<&str, .*>::get::<.*>$": st_map_get,
@@ -834,6 +973,7 @@ STATE_INTRINSICS = {
     r"Option::<.*>::(is_some_and|is_none_or)::<.*>$": st_opt_is_some_and,
     r"Option::<(std::string::)?String>::as_deref$": st_clone,
     r"^(std::string::)?String::as_str$": st_clone,
+    r"^<str as (std::string::)?ToString>::to_string$": st_str_to_string,
     r"^<(std::string::)?String as (std::ops::)?Deref>::deref$": st_clone,
     r"Box::<\[.*; \d+\]>::new_uninit$": st_box_new_uninit,
     r"box_assume_init_into_vec_unsafe::<.*>$": st_box_into_vec,
